@@ -56,6 +56,9 @@ func c01Scenarios(thorough bool) []c01Scenario {
 		{name: "3 seconds, no disk cache", seconds: 3, disk: false, recentSenders: 2, historicSender: 1},
 		{name: "3 seconds, one recent sender (channel full path)", seconds: 3, disk: true, recentSenders: 1, historicSender: 2},
 		{name: "restart 2s after 3 seconds, save immediately", seconds: 3, disk: true, saveImmediate: true, restartAfter: 2 * time.Second, recentSenders: 2, historicSender: 1},
+		// after a restart the seconds come from disk into each historic sender's own scratch buffer: two
+		// senders, so that a second can change hands between them
+		{name: "restart at once after 3 seconds, two historic senders", seconds: 3, disk: true, saveImmediate: true, restartAfter: time.Millisecond, recentSenders: 1, historicSender: 2},
 	}
 	if thorough {
 		out = append(out,
@@ -74,6 +77,7 @@ type c01Agg struct {
 	sends   []string
 	faults  int
 	noFault bool // phase after the fault budget: always answer discard
+	wrong   string // first request whose body is not the body of the second it names
 }
 
 type c01Client struct{ agg *c01Agg }
@@ -108,6 +112,25 @@ func (c *c01Client) Do(ctx context.Context, network string, address string, req 
 	ans := 0
 	if !a.noFault && vsched.Self() != nil {
 		ans = a.x.Choose(4, "aggregator answer")
+	}
+	// the body must be the body of the second the request names (a discard answer makes the agent forget
+	// that second for good: if the bytes belong to another second, its rows are lost)
+	if a.wrong == "" {
+		var sb tlstatshouse.SourceBucket3
+		raw, err := compress.Decompress(args.OriginalSize, []byte(args.CompressedData))
+		if err == nil {
+			_, err = sb.ReadTL1Boxed(raw)
+		}
+		switch {
+		case err != nil:
+			a.wrong = fmt.Sprintf("%s request for second %d carries an undecodable body: %v", kind, args.Time, err)
+		case len(sb.Metrics) != 1 || sb.Metrics[0].Metric != 1000+int32(args.Time%1000):
+			got := int32(-1)
+			if len(sb.Metrics) > 0 {
+				got = sb.Metrics[0].Metric
+			}
+			a.wrong = fmt.Sprintf("%s request for second %d carries the rows of another second (marker %d, expected %d)", kind, args.Time, got, 1000+int32(args.Time%1000))
+		}
 	}
 	a.sends = append(a.sends, fmt.Sprintf("%s:%d->%s:%d", kind, args.Time, address, ans))
 	var resp tlstatshouse.SendSourceBucket3Response
@@ -352,6 +375,9 @@ func c01Run(x *mc.Exec, sc c01Scenario, rep *mc.Report) mc.Verdict {
 	if res.Panic != nil {
 		return mc.Verdict{Violation: fmt.Sprintf("%s: panic in code under test: %v", sc.name, res.Panic), Sig: "C01:agent-panic", Detail: res.PanicStack}
 	}
+	if agg.wrong != "" {
+		sig, viol = "C01:agent-sends-wrong-body-for-second", agg.wrong+fmt.Sprintf("; sends: %v", agg.sends)
+	}
 	if viol != "" {
 		return mc.Verdict{Violation: sc.name + ": " + viol, Sig: sig, Detail: map[string]any{"scenario": sc.name, "sends": agg.sends}}
 	}
@@ -388,6 +414,18 @@ func TestVerifC01Agent(t *testing.T) {
 	}
 	scs := c01Scenarios(mc.Thorough())
 	bound := mc.Pick(1, 2)
+	if v := os.Getenv("VERIF_C01_AGENT_BOUND"); v != "" { // experiments only
+		fmt.Sscan(v, &bound)
+	}
+	if v := os.Getenv("VERIF_C01_AGENT_SCENARIO"); v != "" { // experiments only
+		var keep []c01Scenario
+		for _, sc := range scs {
+			if strings.Contains(sc.name, v) {
+				keep = append(keep, sc)
+			}
+		}
+		scs = keep
+	}
 	rep.Bounds["agent_deviation_bound"] = bound
 	rep.Bounds["agent_scenarios"] = len(scs)
 	rep.Rule = "agent half: every execution with at most B deviations (scripted aggregator answers keep / rpc error / lost response instead of discard at any send; running another thread than the default one; a due timer firing first; non-source-order select probe) of every scenario (3-4 produced seconds, disk cache on/off, save-before-send on/off, 1-2 recent and historic senders, crash+restart on the same directory), virtual time. Non-trivial = execution with at least one fault answer or schedule deviation"
